@@ -212,6 +212,7 @@ let run_e2e id rest =
     let head, body = split_bar rest in
     let f = fields head in
     let has_ext = (get f "sm" = "regular" && get f "fs" = "disk") in
+    let tan = (get f "db" = "tan") in
     let oldm = parse_old_membership (get f "old") in
     let snap_name = bytes_of_string "snapshot-0000000000000064.gbsnap" in
     let ext_name = bytes_of_string "external-file-1" in
@@ -230,7 +231,7 @@ let run_e2e id rest =
     if body <> "" then
       List.iteri (fun n ts ->
           match split_ws ts with
-          | [name; corruption; self; raddr; members] ->
+          | name :: corruption :: self :: raddr :: members :: more ->
             let cname, arg = match String.index_opt corruption ':' with
               | Some i -> String.sub corruption 0 i,
                           int_of_string (String.sub corruption (i + 1) (String.length corruption - i - 1))
@@ -261,8 +262,42 @@ let run_e2e id rest =
                           in_replica = n_of_string self; in_src_exists = true; in_entries = entries;
                           in_meta = meta; in_file = file; in_ssdir_exists = true;
                           in_final_dir = bytes_of_string "/t/final"; in_env_fail = [] } in
+              (* an earlier run on the same host: first=<replica>/<members> *)
+              let store_after ls ss =
+                if tan then Some (tan_import ls ss)
+                else (match logdb_import ls ss with LOk l -> Some l | LPanic -> None) in
+              let first_ok, ls1 = match more with
+                | fst_s :: _ when String.length fst_s > 6 && String.sub fst_s 0 6 = "first=" ->
+                  let v = String.sub fst_s 6 (String.length fst_s - 6) in
+                  let i = String.index v '/' in
+                  let fself = n_of_string (String.sub v 0 i) in
+                  let fmem = parse_map (String.sub v (i + 1) (String.length v - i - 1)) in
+                  let finp = { in_raft_address = bytes_of_hex raddr; in_members = fmem; in_replica = fself;
+                               in_src_exists = true; in_entries = base_entries; in_meta = MetaOk old;
+                               in_file = syn_file; in_ssdir_exists = true;
+                               in_final_dir = bytes_of_string "/t/final"; in_env_fail = [] } in
+                  (match snd (import_run finp) with
+                   | Imported ss1 ->
+                     (* records of another replica id live under other keys *)
+                     if fself = n_of_string self then (true, (match store_after empty_logstore ss1 with Some l -> l | None -> empty_logstore))
+                     else (true, empty_logstore)
+                   | _ -> (false, empty_logstore))
+                | _ -> (true, empty_logstore) in
+              if not first_ok then Printf.printf "%s trial %d %s FIRST-REFUSED\n" id n name
+              else
               (match snd (import_run inp) with
-               | Imported _ -> Printf.printf "%s trial %d %s ACCEPTED\n" id n name
+               | Imported ss ->
+                 (match store_after ls1 ss with
+                  | Some l ->
+                    (match ls_get_snapshot l with
+                     | Some r ->
+                       let m = r.s_membership in
+                       Printf.printf "%s trial %d %s ACCEPTED rec=a=%s/n=%s/w=%s/r=%s/imported=%b/ccid=%s\n" id n name
+                         (show_map m.m_addresses) (show_map m.m_nonvotings) (show_map m.m_witnesses)
+                         (show_set m.m_removed) r.s_imported
+                         (if m.m_ccid = r.s_index && r.s_index = old.s_index then "INDEX" else "OTHER")
+                     | None -> Printf.printf "%s trial %d %s ACCEPTED rec=UNREADABLE\n" id n name)
+                  | None -> Printf.printf "%s trial %d %s ACCEPTED rec=UNREADABLE\n" id n name)
                | _ -> Printf.printf "%s trial %d %s REFUSED\n" id n name)
             end
           | _ -> Printf.printf "%s trial %d BADTRIAL\n" id n) (Str.split (Str.regexp_string " ; ") body);
@@ -279,7 +314,16 @@ let run_e2e id rest =
       let ss = get_processed (bytes_of_string "/t/final") old members in
       let m = ss.s_membership in
       Printf.printf "%s restart members=%s nonvoting=%s witness=%s removed=%s state=EXPORTED propose=OK\n" id
-        (show_map m.m_addresses) (show_map m.m_nonvotings) (show_map m.m_witnesses) (show_set m.m_removed)
+        (show_map m.m_addresses) (show_map m.m_nonvotings) (show_map m.m_witnesses) (show_set m.m_removed);
+      (* second restart: the imported record is still the newest one; an on-disk state
+         machine finds its image shrunk and must not recover from it (do_recover) *)
+      let on_disk = (get f "sm" = "ondisk") in
+      let st2 = match restart_recover on_disk on_disk (nn 101) ss with
+        | RcLoaded -> if on_disk then "RELOADED-SHRUNK-IMAGE" else "EXPORTED+LATER"
+        | RcSkipped -> "EXPORTED+LATER"
+        | RcOutOfDate -> "OUT-OF-DATE"
+        | RcPanic -> "PANIC" in
+      Printf.printf "%s restart2 members=%s state=%s propose=OK\n" id (show_map m.m_addresses) st2
     end
   end
 
